@@ -2308,9 +2308,15 @@ coap_read_endpoint(coap_context_t *ctx, coap_endpoint_t *endpoint, coap_tick_t n
     if (session) {
       coap_log_debug("*  %s: netif: recv %4zd bytes\n",
                      coap_session_str(session), bytes_read);
+      /* Make sure the session object is not deleted while the datagram is
+         being handled (a session turned into a client session by
+         coap_session_set_type_client() is freed by its last release) */
+      coap_session_reference_lkd(session);
       result = coap_handle_dgram_for_proto(ctx, session, packet);
       if (endpoint->proto == COAP_PROTO_DTLS && session->type == COAP_SESSION_TYPE_HELLO && result == 1)
         coap_session_new_dtls_session(session, now);
+      /* Now dereference session so it can go away if needed */
+      coap_session_release_lkd(session);
     }
   }
   return result;
